@@ -285,8 +285,10 @@ func dialWS(base, kind string, init bool) (*wsClient, error) {
 
 // read returns the next frame that is not a keep-alive.
 func (c *wsClient) read() (wsFrame, error) {
+	// one deadline for the whole wait: keep-alive frames must not extend it
+	deadline := time.Now().Add(wsTimeout)
 	for {
-		c.conn.SetReadDeadline(time.Now().Add(wsTimeout))
+		c.conn.SetReadDeadline(deadline)
 		_, data, err := c.conn.ReadMessage()
 		if err != nil {
 			return wsFrame{}, err
